@@ -157,12 +157,13 @@ CHECKS = {
     "C11": dict(
         level="model_checking",
         text="Cascade.tla transcribes the decision cascade of Writer.WriteRowGroup and states the requirement "
-             "Allowed(path, src, dst); TLC evaluates it over all 55 296 source x destination vectors (vectors where the "
-             "transcription is not allowed are decided on the code). A stratified sample of vectors is realised with six "
-             "kinds of source row groups and written with the fast paths on and off (hook); CascadeMon.tla compares rows "
+             "Allowed(path, src, dst); TLC evaluates it over all 147 456 source x destination vectors (vectors where the "
+             "transcription is not allowed are decided on the code). A stratified sample of vectors (strata include near "
+             "misses of the copy predicate) is realised with eight kinds of source row groups, among them segmented ones, "
+             "and two row types (with and without levels), and written with the fast paths on and off (hook); CascadeMon.tla compares rows "
              "and every observable setting with the row path's output and checks the row-group limit.",
-        note="Settings summarised from the first output row group; segment packing of split merges and range views are "
-             "not driven; one known finding (page-header statistics on the copy path) is listed in known_findings.json.",
+        note="Settings summarised from the first output row group; range views are not driven; bloom filter sizes "
+             "are compared only when the first output row groups have equal size; one known finding (page-header statistics on the copy path) is listed in known_findings.json.",
         technique="TLA+ decision-table model (TLC exhaustive) + stratified replay on the code against the row-path reference + TLC trace monitor",
         design_ref="DESIGN.md section 5 C11",
     ),
@@ -172,11 +173,12 @@ CHECKS = {
              "null or zero - and is self-checked by TLC over 72 named source schemas x targets obtained by <=2 "
              "delete / permute / add edits x all small rows. Sampled triples are realised with Go types built from the "
              "trees; rows are obtained through the target schema via NewReader(file, schema).Read/ReadRows, "
-             "ConvertRowGroup, CopyRows and MergeRowGroups(schema); ConvertMon.tla compares the shared part exactly and "
-             "requires added fields to hold only nulls and zeros.",
+             "ConvertRowGroup, CopyRows (from file rows, RowBuffer and Buffer into writers and buffers) and "
+             "MergeRowGroups(schema), each row also with its lists stretched to two and three elements; ConvertMon.tla "
+             "checks the row count, compares the shared part exactly and requires added fields to hold only nulls and zeros.",
         note="int64 leaves; one nested group; the statement leaves open whether an added optional group / repeated leaf "
-             "is null, empty or zero-filled, so only the shared part is compared exactly; two known findings (required "
-             "leaf added inside an existing group) are listed in known_findings.json.",
+             "is null, empty or zero-filled, so only the shared part is compared exactly; classes are qualified by edit shape and "
+             "API path; six known findings, all on MergeRowGroups(schema), are listed in known_findings.json.",
         technique="TLA+ requirement operator (self-checked by TLC) as the oracle of a TLC trace monitor + TLC-enumerated schema edits replayed on the code",
         design_ref="DESIGN.md section 5 C12",
     ),
@@ -228,7 +230,7 @@ CHECKS = {
              "the middle of one ReadRows call), clones, typed copies and churn; TLC checks for every short history that "
              "nothing the caller may still look at lives in pooled memory, and that the same model without detach fails. "
              "TLC-simulated histories run, with pooled memory poisoned on release (hook), on row readers, Reader, value "
-             "readers, merged and converted row groups, GenericReader and Read[T]; every value is deep-copied on receipt "
+             "readers, merged and converted row groups, GenericReader (fresh and reused batches) and Read[T], on files with and without a mid-chunk dictionary overflow; every value is deep-copied on receipt "
              "and re-compared after every later operation, Close and churn; SnapMon.tla applies the validity windows.",
         note="Single goroutine (concurrent churn is C15's); one row type; the poison hook makes dangling references "
              "deterministic but only for memory that goes through the slice pools.",
@@ -252,7 +254,7 @@ CHECKS = {
              "the page reader's ordinal counting along sequential reads and seeks; TLC checks that ordinals agree with "
              "positions, untampered files always decrypt and a delivered page is always the genuine page of its "
              "position, for every short history and single tampering. EncScen.tla spans the option x tamper x path "
-             "space; the harness writes encrypted files, reads them back, scans raw bytes for plaintext markers and "
+             "(sequential, seek, read-then-seek-forward) x file-identifier (explicit or drawn by the library) space; the harness writes encrypted files, reads them back, scans raw bytes for plaintext markers and "
              "tampers with copies (flip, swap, transplant from another file / column / row group, wrong or missing "
              "key, truncation); CryptoMon.tla judges every read.",
         note="AES-GCM trusted; tampering targets data page body modules (other module types only through round trips); "
